@@ -722,6 +722,23 @@ fn read_src(abs_path: &Path, import_info: &ImportInfo) -> Result<String, Diagnos
         }
     }
 
+    // Only regular files can be imported. Reading a FIFO or a
+    // character device (e.g. `/dev/stdin`) would block forever.
+    if let Ok(metadata) = std::fs::metadata(abs_path) {
+        if !metadata.is_file() {
+            return Err(Diagnostic {
+                message: ErrorMessage(vec![
+                    msgcode!("{}", import_info.path.display()),
+                    msgtext!(" is not a regular file."),
+                ]),
+                position: import_info.path_pos.clone(),
+                notes: vec![],
+                fixes: vec![],
+                severity: Severity::Error,
+            });
+        }
+    }
+
     let src_bytes = match std::fs::read(abs_path) {
         Ok(src_bytes) => src_bytes,
         Err(e) => {
